@@ -28,6 +28,11 @@ def lifecycle(rng, tag, fid0):
         if kind == "killed":
             ops.append(submit_op("L", fid, dict(id=fid, kind="work", dur=1e4), []))
             fid += 1
+            if rng.random() < 0.25:
+                # a backlog of unsent calls larger than the pipe: the feeder is blocked in send_bytes at the kill
+                for _ in range(rng.randint(2, 4)):
+                    ops.append(submit_op("L", fid, dict(id=fid, kind="work", dur=0), [["big", 70000]]))
+                    fid += 1
             ops.append({"op": "sleep", "d": rng.choice([0.0, 0.05, 0.5])})
             ops.append({"op": "shutdown", "ex": "L", "wait": True, "kill": True, "keep": True})
         else:
@@ -126,10 +131,15 @@ class C20(Prop):
             return out
         base = snaps[1]
         last = snaps[-1]
+        stuck = last.get("feeders_in_write", 0)
         for key in ("fds", "tasks", "children", "sems"):
             if last[key] != base[key]:
                 vals = [s[key] for s in snaps]
-                out.append(V(pid, "C20/leak/%s" % key, "%s after each repetition: %r (repetition 0 is the warm-up)" % (key, vals)))
+                why = ""
+                if stuck and stuck >= last["tasks"] - base["tasks"] > 0:
+                    why = "/feeder-blocked-in-send"
+                out.append(V(pid, "C20/leak/%s%s" % (key, why), "%s after each repetition: %r (repetition 0 is the warm-up)%s" % (
+                    key, vals, "; %d feeder threads blocked writing to a call-queue pipe nobody reads" % stuck if why else "")))
         return out
 
     def features(self, res):
